@@ -14,7 +14,9 @@ use haloswap::pair::{Cw20HookMsg as PairHook, ExecuteMsg as PairExec};
 use haloswap::router::{Cw20HookMsg as RouterHook, ExecuteMsg as RouterExec, SwapOperation};
 
 pub const HEAD_LEN: usize = 48;
-pub const OP_LEN: usize = 16;
+pub const OP_LEN: usize = 24;
+/// the last EXTRA_LEN words of an op chunk are reserved for oracle-side probes
+pub const EXTRA_LEN: usize = 8;
 
 #[derive(Clone, Debug)]
 pub struct Profile {
@@ -31,15 +33,17 @@ pub struct Profile {
     pub connected: bool,
     /// bias toward hostile magnitudes (C20)
     pub hostile: bool,
+    /// property-specific generator consulted first (may decline by returning None)
+    pub special: Option<fn(&World, &mut Src, &Profile, &mut GenState, usize) -> Option<Step>>,
 }
 
-pub const MIXED: Profile = Profile { name: "mixed", w: [10, 6, 10, 8, 3, 1, 4, 1, 1], adversarial_16: 2, funds_games_16: 1, max_pairs: 3, connected: false, hostile: false };
-pub const SWAPPY: Profile = Profile { name: "swappy", w: [6, 2, 14, 12, 2, 0, 4, 0, 0], adversarial_16: 1, funds_games_16: 0, max_pairs: 3, connected: false, hostile: false };
-pub const SETTLE: Profile = Profile { name: "settlement", w: [6, 2, 12, 14, 2, 1, 2, 0, 0], adversarial_16: 9, funds_games_16: 5, max_pairs: 3, connected: false, hostile: false };
-pub const FUNDS: Profile = Profile { name: "funds", w: [12, 1, 14, 6, 1, 0, 0, 0, 0], adversarial_16: 3, funds_games_16: 11, max_pairs: 2, connected: false, hostile: false };
-pub const LIQUIDITY: Profile = Profile { name: "liquidity", w: [12, 12, 6, 5, 4, 2, 1, 1, 0], adversarial_16: 1, funds_games_16: 0, max_pairs: 2, connected: false, hostile: false };
-pub const HOSTILE: Profile = Profile { name: "hostile", w: [8, 3, 10, 8, 8, 2, 2, 0, 0], adversarial_16: 0, funds_games_16: 0, max_pairs: 2, connected: false, hostile: true };
-pub const ROUTES: Profile = Profile { name: "routes", w: [8, 2, 5, 4, 1, 0, 12, 0, 0], adversarial_16: 0, funds_games_16: 0, max_pairs: 5, connected: true, hostile: false };
+pub const MIXED: Profile = Profile { name: "mixed", w: [10, 6, 10, 8, 3, 1, 4, 1, 1], adversarial_16: 2, funds_games_16: 1, max_pairs: 3, connected: false, hostile: false, special: None };
+pub const SWAPPY: Profile = Profile { name: "swappy", w: [6, 2, 14, 12, 2, 0, 4, 0, 0], adversarial_16: 1, funds_games_16: 0, max_pairs: 3, connected: false, hostile: false, special: None };
+pub const SETTLE: Profile = Profile { name: "settlement", w: [6, 2, 12, 14, 2, 1, 2, 0, 0], adversarial_16: 9, funds_games_16: 5, max_pairs: 3, connected: false, hostile: false, special: None };
+pub const FUNDS: Profile = Profile { name: "funds", w: [12, 1, 14, 6, 1, 0, 0, 0, 0], adversarial_16: 3, funds_games_16: 11, max_pairs: 2, connected: false, hostile: false, special: None };
+pub const LIQUIDITY: Profile = Profile { name: "liquidity", w: [12, 12, 6, 5, 4, 2, 1, 1, 0], adversarial_16: 1, funds_games_16: 0, max_pairs: 2, connected: false, hostile: false, special: None };
+pub const HOSTILE: Profile = Profile { name: "hostile", w: [8, 3, 10, 8, 8, 2, 2, 0, 0], adversarial_16: 0, funds_games_16: 0, max_pairs: 2, connected: false, hostile: true, special: None };
+pub const ROUTES: Profile = Profile { name: "routes", w: [8, 2, 5, 4, 1, 0, 12, 0, 0], adversarial_16: 0, funds_games_16: 0, max_pairs: 5, connected: true, hostile: false, special: None };
 
 const COMMISSIONS: [Option<u128>; 8] = [None, Some(0), Some(1), Some(30_000_000_000_000_000), Some(E18 / 2), Some(E18 - 1), Some(E18), Some(3_000_000_000_000_000)];
 
@@ -550,12 +554,33 @@ pub fn gen_forged(w: &World, s: &mut Src, _prof: &Profile) -> Step {
     }
 }
 
+/// generator state carried across the operations of one history (quotes taken earlier, the
+/// reference delivery of a route computed on a fork ...)
+#[derive(Default, Debug, Clone)]
+pub struct GenState {
+    /// swap orders quoted in an earlier state and executed later with guard parameters derived from
+    /// the stale quote: (pair, offer side, actor, offer amount, quoted return, quoted spread)
+    pub pending_swaps: Vec<(usize, usize, String, u128, u128, u128)>,
+    /// provisions balanced against reserves of an earlier state: (pair, actor, d0, d1)
+    pub pending_provides: Vec<(usize, String, u128, u128)>,
+    /// for the route generated last: what the same route delivers without minimum_receive on a fork
+    pub route_reference: Option<Option<u128>>,
+    pub step_no: usize,
+}
+
 pub const KIND_NAMES: [&str; 9] = ["op:provide", "op:withdraw", "op:swap-exec", "op:swap-hook", "op:donate", "op:donate-lp", "op:route", "op:allowance", "op:forged"];
 
-pub fn gen_step(w: &World, s: &mut Src, prof: &Profile) -> (Step, usize) {
+pub fn gen_step(w: &World, s: &mut Src, prof: &Profile, gs: &mut GenState) -> (Step, usize) {
     let mut kind = s.weighted(&prof.w);
     if w.tokens.is_empty() && (kind == 3 || kind == 7) {
         kind = 2;
+    }
+    gs.step_no += 1;
+    gs.route_reference = None;
+    if let Some(f) = prof.special {
+        if let Some(st) = f(w, s, prof, gs, kind) {
+            return (st, kind);
+        }
     }
     let st = match kind {
         0 => gen_provide(w, s, prof),
@@ -595,3 +620,143 @@ pub fn gen_seed_liquidity(w: &World, s: &mut Src, p: usize, prof: &Profile) -> S
     funds.sort_by(|a, b| a.denom.cmp(&b.denom));
     Step { sender: actor, call: Call::Pair { pair: p, msg: PairExec::ProvideLiquidity { assets, slippage_tolerance: None, receiver: None } }, funds }
 }
+
+// ------------------------------------------------------------------------------------------------
+// well-formed building blocks and the quote-then-execute generators (C10, C12, C15 system level)
+
+pub fn wellformed_swap(w: &World, pair: usize, side: usize, actor: &str, amt: u128, belief: Option<Decimal>, max_spread: Option<Decimal>, to: Option<String>) -> Step {
+    let pr = &w.pairs[pair];
+    let offer = Asset { info: pr.infos[side].clone(), amount: Uint128::new(amt) };
+    match &pr.infos[side] {
+        AssetInfo::NativeToken { denom } => Step {
+            sender: actor.to_string(),
+            call: Call::Pair { pair, msg: PairExec::Swap { offer_asset: offer, belief_price: belief, max_spread, to } },
+            funds: if amt > 0 { vec![Coin { denom: denom.clone(), amount: Uint128::new(amt) }] } else { vec![] },
+        },
+        AssetInfo::Token { contract_addr } => Step {
+            sender: actor.to_string(),
+            call: Call::Cw20 {
+                token: contract_addr.clone(),
+                msg: Cw20ExecuteMsg::Send {
+                    contract: pr.addr.to_string(),
+                    amount: Uint128::new(amt),
+                    msg: to_binary(&PairHook::Swap { offer_asset: offer, belief_price: belief, max_spread, to }).unwrap(),
+                },
+            },
+            funds: vec![],
+        },
+    }
+}
+
+pub fn simulate(w: &World, pair: usize, side: usize, amt: u128) -> Result<haloswap::pair::SimulationResponse, String> {
+    let pr = &w.pairs[pair];
+    w.query(pr.addr.as_str(), &haloswap::pair::QueryMsg::Simulation { offer_asset: Asset { info: pr.infos[side].clone(), amount: Uint128::new(amt) } })
+}
+
+fn dec_from_ratio(num: &crate::nat::Nat, den: &crate::nat::Nat) -> Option<Decimal> {
+    if den.is_zero() {
+        return None;
+    }
+    num.mul(&crate::nat::Nat::e18()).div(den).to_u128().map(|a| Decimal::new(Uint128::new(a)))
+}
+
+/// C10 system level: orders are quoted in one state and executed later, after other traders' swaps.
+pub fn special_guarded(w: &World, s: &mut Src, prof: &Profile, gs: &mut GenState, kind: usize) -> Option<Step> {
+    if kind != 2 && kind != 3 {
+        return None;
+    }
+    if !gs.pending_swaps.is_empty() && s.chance(1, 2) {
+        let (p, side, actor, amt, qret, _qspread) = gs.pending_swaps.remove(0);
+        let od = w.asset_decimals(w.pairs[p].assets[side]) as u32;
+        let rd = w.asset_decimals(w.pairs[p].assets[1 - side]) as u32;
+        let o_norm = n(amt).mul(&crate::nat::Nat::pow10(rd.saturating_sub(od)));
+        let r_norm = n(qret).mul(&crate::nat::Nat::pow10(od.saturating_sub(rd)));
+        let max_spread = match s.weighted(&[3, 2, 2, 2, 2, 1]) {
+            0 => 0,
+            1 => E18 / 1000,
+            2 => E18 / 100,
+            3 => E18 / 2,
+            4 => gen_rate_atomics(s),
+            _ => E18,
+        };
+        let mode = s.weighted(&[5, 4, 1]);
+        let belief = match s.weighted(&[4, 2, 2, 1, 1]) {
+            0 => dec_from_ratio(&o_norm, &r_norm),                                           // the quoted price
+            1 => dec_from_ratio(&o_norm.mul(&n(1000)), &r_norm.mul(&n(1000 + s.below(20) as u128))), // slightly optimistic
+            2 => dec_from_ratio(&o_norm.mul(&n(1000 + s.below(20) as u128)), &r_norm.mul(&n(1000))), // slightly pessimistic
+            3 => dec_from_ratio(&n(amt), &n(qret)),                                          // raw, decimals ignored
+            _ => Some(Decimal::new(Uint128::new(s.bits_u128(90).max(1)))),
+        };
+        let (belief, ms) = match mode {
+            0 => (belief, Some(Decimal::new(Uint128::new(max_spread)))),
+            1 => (None, Some(Decimal::new(Uint128::new(max_spread)))),
+            _ => (belief, None),
+        };
+        let to = if s.chance(1, 4) { Some(who(w, s)) } else { None };
+        return Some(wellformed_swap(w, p, side, &actor, amt, belief, ms, to));
+    }
+    // take a quote now; the order is executed by a later operation
+    let p = s.idx(w.pairs.len());
+    let side = s.idx(2);
+    let actor = w.actors[s.idx(w.actors.len())].to_string();
+    let amt = offer_amount(w, s, prof, p, side, &actor).max(1);
+    if let Ok(q) = simulate(w, p, side, amt) {
+        if gs.pending_swaps.len() < 4 {
+            gs.pending_swaps.push((p, side, actor, amt, q.return_amount.u128(), q.spread_amount.u128()));
+        }
+    }
+    None
+}
+
+/// C15 system level: deposits are balanced against the reserves of an earlier state and provided
+/// later with a tolerance, after other actors' swaps.
+pub fn special_slippage(w: &World, s: &mut Src, _prof: &Profile, gs: &mut GenState, kind: usize) -> Option<Step> {
+    if kind != 0 {
+        return None;
+    }
+    if !gs.pending_provides.is_empty() && s.chance(2, 3) {
+        let (p, actor, d0, d1) = gs.pending_provides.remove(0);
+        let pr = &w.pairs[p];
+        let tol = match s.weighted(&[2, 2, 2, 2, 3, 1]) {
+            0 => 0,
+            1 => E18 / 1000,
+            2 => E18 / 100,
+            3 => E18 / 2,
+            4 => gen_rate_atomics(s),
+            _ => E18,
+        };
+        let mut assets = [Asset { info: pr.infos[0].clone(), amount: Uint128::new(d0) }, Asset { info: pr.infos[1].clone(), amount: Uint128::new(d1) }];
+        if s.chance(1, 3) {
+            assets.swap(0, 1);
+        }
+        let mut funds: Vec<Coin> = assets
+            .iter()
+            .filter_map(|a| if let AssetInfo::NativeToken { denom } = &a.info { if a.amount.u128() > 0 { Some(Coin { denom: denom.clone(), amount: a.amount }) } else { None } } else { None })
+            .collect();
+        funds.sort_by(|a, b| a.denom.cmp(&b.denom));
+        return Some(Step {
+            sender: actor,
+            call: Call::Pair { pair: p, msg: PairExec::ProvideLiquidity { assets, slippage_tolerance: Some(Decimal::new(Uint128::new(tol))), receiver: None } },
+            funds,
+        });
+    }
+    let p = s.idx(w.pairs.len());
+    let (r0, r1, sup) = w.pool(p);
+    if sup > 0 && r0 > 0 && r1 > 0 && gs.pending_provides.len() < 4 {
+        let actor = w.actors[s.idx(w.actors.len())].to_string();
+        let b0 = w.balance(&w.pairs[p].infos[0], &actor);
+        let d0 = amount(s, b0.min(r0.saturating_mul(2)).min((1u128 << 100) - 1)).max(1);
+        let d1 = n(d0).mul(&n(r1)).div_ceil(&n(r0)).to_u128().unwrap_or(u128::MAX).max(1);
+        let d1 = match s.below(4) {
+            0 => d1.saturating_add(s.below(3) as u128),
+            1 => d1.saturating_sub(s.below(3) as u128).max(1),
+            _ => d1,
+        };
+        gs.pending_provides.push((p, actor, d0, d1));
+    }
+    None
+}
+
+pub const GUARDED: Profile = Profile { name: "guarded", w: [5, 2, 16, 14, 2, 0, 3, 0, 0], adversarial_16: 0, funds_games_16: 0, max_pairs: 3, connected: false, hostile: false, special: Some(special_guarded) };
+pub const SLIPPAGE: Profile = Profile { name: "slippage", w: [16, 3, 10, 8, 3, 0, 2, 0, 0], adversarial_16: 0, funds_games_16: 0, max_pairs: 2, connected: false, hostile: false, special: Some(special_slippage) };
+pub const QUOTES: Profile = Profile { name: "quotes", w: [6, 3, 14, 12, 3, 0, 4, 0, 0], adversarial_16: 0, funds_games_16: 0, max_pairs: 3, connected: false, hostile: false, special: None };
